@@ -393,9 +393,9 @@ def check(tier: str, replay: Optional[str] = None) -> int:
     cfgs: List[Dict[str, Any]] = []
     if not (case and case.get("machine") == "Compare"):
         for (name, types, names, cpkeys, rev) in hl.templates(tier):
-            if tier == "quick" and name not in ("chain", "two_names", "comparams"):
+            if tier == "quick" and name not in ("chain", "two_names", "comparams", "comparams_shared"):
                 continue
-            if tier == "thorough" and name in ("two_groups", "shared_chain", "two_names_rev", "comparams_rev"):
+            if tier == "thorough" and name in ("two_groups", "shared_chain", "two_names_rev", "comparams_rev", "two_protocols_shared"):
                 continue
             r2, c2 = hl.run_model(name, types, names, cpkeys, rev)
             design[name] = {"distinct": r2.distinct, "configurations": len(c2)}
